@@ -35,6 +35,8 @@ func init() {
 			"on the planning side a field's name and alias are taken from the same operation field wherever a response field is built, the duplicate check uses the same (name, alias) identity as the construction, fragment fields are de-duplicated by the response key, and the merge path of resolver / @requires calls ends in the response key; every call kind is compiled, and a call is merged by path exactly when its plan carries a response path; " +
 			"the code reachable from DataSource.Load never stores into plan-owned memory (no assignment through plan pointers, no append onto a slice that aliases the plan), so concurrent requests on one cached plan cannot change each other's shape; both consumers of the plan test the list wrapper before the optional-scalar wrapper (a nullable scalar list satisfies both predicates). It does not decide the value-level equality of responses under reformulation.",
 		Mutants: []Mutant{
+			{Name: "the federation visitor starts without planning messages (reverts the F66 fix)", File: "v2/pkg/engine/datasource/grpc_datasource/execution_plan_visitor_federation.go", Rule: "C20-R18", Key: "rpcPlanVisitorFederation/planning-message-never-nil:currentResponseMessage",
+				Old: "\t\t\tcurrentRequestMessage:    &RPCMessage{},\n\t\t\tcurrentResponseMessage:   &RPCMessage{},\n\t\t\tresponseMessageAncestors: []*RPCMessage{},\n\t\t},\n\t}\n\n\twalker.RegisterDocumentVisitor(visitor)", New: "\t\t\tresponseMessageAncestors: []*RPCMessage{},\n\t\t},\n\t}\n\n\twalker.RegisterDocumentVisitor(visitor)"},
 			{Name: "an unpopulated scalar field counts as absent (seeded change C20-2)", File: "v2/pkg/engine/datasource/grpc_datasource/compiler.go", Rule: "C20-R17", Key: "RPCCompiler.getMessageField/presence-only-where-tracked",
 				Old: "\tfd := message.Descriptor().Fields().ByName(protoref.Name(fieldName))\n\tif fd == nil {\n", New: "\tfd := message.Descriptor().Fields().ByName(protoref.Name(fieldName))\n\tif fd == nil || !message.Has(fd) {\n"},
 			{Name: "the gRPC exemption from minification is decided when the minifier is enabled, not when it is used (seeded change C20-13)", File: "v2/pkg/engine/datasource/graphql_datasource/graphql_datasource.go", Rule: "C20-R16", Key: "Planner.printOperation/minify-only-when-not-grpc",
@@ -122,6 +124,7 @@ func runC20(r *fw.Run) {
 		c20DependencyGraphKeyedByCallID(r)
 		c20NoMinifierForGRPC(r)
 		c20PresenceOnlyWhereTracked(r)
+		c20PlanningMessagesNeverNil(r)
 		r.Rule("C20-R14", "in the gRPC planner a response name (alias or name) never reaches a lookup keyed by the schema-side field name")
 		nRN := responseNamesNeverReachSchemaLookups(r, "C20-R14", []string{"grpcds"})
 		r.Expect("C20-R14", "schema-side field name arguments in grpc_datasource", nRN, 1)
@@ -1930,4 +1933,144 @@ func c20PresenceOnlyWhereTracked(r *fw.Run) {
 	if n == 0 {
 		r.Pass("C20-R17", "no-presence-questions", "", "the gRPC data source never asks protoreflect.Message.Has (nothing to decide; the seeded mutant is the positive control)", false)
 	}
+}
+
+// c20PlanningMessagesNeverNil (R18): the gRPC planner visitors collect the fields they meet in "the current request /
+// response message", two pointers in planningInfo that EnterField dereferences for every field it plans. A field can be
+// the first thing the walker meets below a root field (`_entities { __typename ... on Product { … } }`), so the pointers
+// have to be non-nil before any field is entered: they are set in the literal that constructs the visitor, or in
+// EnterDocument / EnterOperationDefinition, or EnterField itself assigns them (directly or through a method of the
+// visitor) on every path before its first dereference — the root field, which every other field is below, sets them
+// first. Setting them in the callback of some other node kind (the first inline fragment) is not enough.
+func c20PlanningMessagesNeverNil(r *fw.Run) {
+	p := r.Prog
+	r.Rule("C20-R18", "the planning messages the gRPC planner visitors dereference in EnterField (planningInfo.current{Request,Response}Message) are non-nil before any field is entered: set at construction, in EnterDocument / EnterOperationDefinition, or by EnterField itself before its first dereference")
+	n := 0
+	for _, vt := range []string{"rpcPlanVisitor", "rpcPlanVisitorFederation"} {
+		methods := map[string]*fw.FuncInfo{}
+		for _, fi := range p.Funcs("grpcds") {
+			if strings.HasPrefix(fi.Name(), vt+".") {
+				methods[strings.TrimPrefix(fi.Name(), vt+".")] = fi
+			}
+		}
+		enterField := methods["EnterField"]
+		if enterField == nil {
+			continue
+		}
+		for _, f := range []string{"currentRequestMessage", "currentResponseMessage"} {
+			isPtr := func(info *types.Info, e ast.Expr) bool { // <recv>.planInfo.<f>
+				return fw.IsFieldSel(info, e, "grpcds", "planningInfo", f)
+			}
+			// methods that assign the pointer (directly, or by calling one that does)
+			assigns := map[*fw.FuncInfo]bool{}
+			for changed := true; changed; {
+				changed = false
+				for _, m := range methods {
+					if assigns[m] {
+						continue
+					}
+					info := m.Info()
+					fw.WalkAll(m.Decl.Body, func(nd ast.Node) bool {
+						switch x := nd.(type) {
+						case *ast.AssignStmt:
+							for _, l := range x.Lhs {
+								if isPtr(info, l) {
+									assigns[m] = true
+								}
+							}
+						case *ast.CallExpr:
+							if callee := p.FuncOf(fw.Callee(info, x)); callee != nil && assigns[callee] {
+								assigns[m] = true
+							}
+						}
+						return true
+					})
+					if assigns[m] {
+						changed = true
+					}
+				}
+			}
+			// dereferenced in EnterField?
+			info := enterField.Info()
+			derefs := false
+			fw.WalkAll(enterField.Decl.Body, func(nd ast.Node) bool {
+				if sel, ok := nd.(*ast.SelectorExpr); ok && isPtr(info, sel.X) {
+					derefs = true
+				}
+				return true
+			})
+			if !derefs {
+				continue
+			}
+			n++
+			// (a) the constructing literal
+			atStart := false
+			for _, fi := range p.Funcs("grpcds") {
+				cinfo := fi.Info()
+				fw.WalkAll(fi.Decl.Body, func(nd ast.Node) bool {
+					cl, ok := nd.(*ast.CompositeLit)
+					if !ok || !fw.TypeIs(cinfo.TypeOf(cl), "grpcds", "planningInfo") {
+						return true
+					}
+					// only a literal nested in the literal of the visitor itself counts as construction
+					for _, el := range cl.Elts {
+						if kv, isKV := el.(*ast.KeyValueExpr); isKV {
+							if k, isID := kv.Key.(*ast.Ident); isID && k.Name == f && !strings.HasPrefix(fi.Name(), vt+".") && constructs(cinfo, fi, vt) {
+								atStart = true
+							}
+						}
+					}
+					return true
+				})
+			}
+			// (b) a callback that precedes every field
+			for _, cb := range []string{"EnterDocument", "EnterOperationDefinition"} {
+				if m := methods[cb]; m != nil && assigns[m] {
+					atStart = true
+				}
+			}
+			// (c) EnterField assigns before its first dereference, on every path
+			okInField := true
+			if !atStart {
+				in := fw.NewInterp(enterField)
+				in.H = fw.Hooks{
+					Lit: func(l *ast.FuncLit, ctx fw.LitCtx, st *fw.State) fw.LitMode { return fw.LitSkip },
+					Node: func(nd ast.Node, st *fw.State) {
+						switch x := nd.(type) {
+						case *ast.AssignStmt:
+							for _, l := range x.Lhs {
+								if isPtr(info, l) {
+									st.Set("assigned")
+								}
+							}
+						case *ast.CallExpr:
+							if callee := p.FuncOf(fw.Callee(info, x)); callee != nil && assigns[callee] {
+								st.Set("assigned")
+							}
+						case *ast.SelectorExpr:
+							if in.Final() && isPtr(info, x.X) && !st.Must("assigned") {
+								okInField = false
+							}
+						}
+					},
+				}
+				in.Run(nil)
+			}
+			r.Check(atStart || okInField, "C20-R18", vt+"/planning-message-never-nil:"+f, p.Pos(enterField.Decl.Pos()), "planningInfo."+f+" is non-nil whenever "+vt+".EnterField dereferences it",
+				"planningInfo."+f+" is dereferenced in "+vt+".EnterField but is set neither when the visitor is constructed, nor in EnterDocument / EnterOperationDefinition, nor by EnterField itself before the dereference: a field that the walker enters before the callback that sets it (a __typename directly below _entities, in front of the first entity fragment) panics the planner with a nil pointer dereference")
+		}
+	}
+	r.Expect("C20-R18", "planning message pointers dereferenced by EnterField", n, 2)
+}
+
+// constructs: fi returns (a pointer to) a value of the named visitor type built by a composite literal.
+func constructs(info *types.Info, fi *fw.FuncInfo, typeName string) bool {
+	found := false
+	fw.WalkAll(fi.Decl.Body, func(nd ast.Node) bool {
+		if cl, ok := nd.(*ast.CompositeLit); ok && fw.TypeIs(info.TypeOf(cl), "grpcds", typeName) {
+			found = true
+		}
+		return true
+	})
+	return found
 }
